@@ -6,6 +6,27 @@ import (
 	"strings"
 )
 
+// escapeNonPrint replaces characters which are not printable (line breaks, control characters, ...)
+// with Go escape sequences. It is used for embedding user inputs or error messages from libraries
+// into error messages without quoting since an error message must be printed in one line.
+func escapeNonPrint(s string) string {
+	i := strings.IndexFunc(s, func(r rune) bool { return !strconv.IsPrint(r) })
+	if i < 0 {
+		return s
+	}
+	var b strings.Builder
+	b.WriteString(s[:i])
+	for _, r := range s[i:] {
+		if strconv.IsPrint(r) {
+			b.WriteRune(r)
+			continue
+		}
+		q := strconv.QuoteRune(r)
+		b.WriteString(q[1 : len(q)-1])
+	}
+	return b.String()
+}
+
 type quotesBuilder struct {
 	inner strings.Builder
 	buf   []byte
